@@ -129,7 +129,7 @@ theorem validateSiacoins1_ok {ms : Mid} {t : Txn1} (h : validateSiacoins ms t = 
   unfold Txn1.payouts
   simp only [List.map_id'] at e3
   clear hin ho1 ho2 ho3 h e0
-  cur_omega
+  c1_omega
 
 theorem validateSiafunds1_ok {ms : Mid} {t : Txn1} (h : validateSiafunds ms t = .ok ()) :
     (∀ sfi ∈ t.sfIns, ms.isSpent sfi.parent = false ∧ ∃ p, ms.sfElement t.supp sfi.parent = some p) ∧
